@@ -395,6 +395,54 @@ def check_decode(ctx, data, cuts, end, tag, rbufsize=8192, expect=None,
         _judge(ctx, name, tag, frames, how, want, ending, end, data, cuts)
         if end == "reset" and how == "hangup":
             ctx.stat("probe:reset_seen")
+    # smart HTTP: the request body reaches the decoder through
+    # dulwich.web's Content-Length limiter over wsgi.input, which may return
+    # short reads too; what follows the body must never be read
+    if end == "eof":
+        from dulwich.web import _LengthLimitedFile
+        st = ChunkedStream(data + b"NEXT-REQUEST", cuts, end)
+        lim = _LengthLimitedFile(st, len(data))
+        frames, how = dec_receivable(
+            type("S", (), {"recv": staticmethod(lim.read)})(), rbufsize)
+        ctx.case([dh, ch, end, "LengthLimited", rbufsize],
+                 split or ending != "clean-eof")
+        _judge(ctx, "LengthLimitedFile", tag, frames, how, want, ending, end,
+               data, cuts)
+    # the side-band demultiplexer over the same bytes: (channel, data) per
+    # frame up to the first flush; a frame without a band byte is a protocol
+    # error, never another exception
+    if len(data) < 5000:
+        from dulwich.client import _read_side_band64k_data
+        from dulwich.protocol import Protocol
+        GPE, HUP = _proto_errors()
+        st = ChunkedStream(data, cuts, end)
+        pr = Protocol(buffered_read(st), lambda b: None)
+        got_sb = []
+        how = "flush"
+        try:
+            for chn, dat in _read_side_band64k_data(pr.read_pkt_seq()):
+                got_sb.append((chn, dat))
+        except HUP:
+            how = "hangup"
+        except GPE:
+            how = "protocol-error"
+        except StreamSpin:
+            how = "SPIN"
+        except BaseException as e:  # noqa: BLE001
+            how = "EXC:" + type(e).__name__
+        ctx.case([dh, ch, end, "sideband-demux"], split)
+        want_sb = []
+        for f in want:
+            if f is None or f == b"":
+                break
+            want_sb.append((f[0], f[1:]))
+        if how.startswith("EXC") or how == "SPIN":
+            ctx.v(f"wrong-exception/sideband-demux/{tag}/{how}",
+                  f"data={data[:60]!r} cuts={cuts[:20]}")
+        elif got_sb != want_sb[:len(got_sb)] or len(got_sb) > len(want_sb):
+            ctx.v(f"roundtrip-mismatch/sideband-demux/{tag}",
+                  f"got {got_sb[:4]} want {want_sb[:4]} ({how}); "
+                  f"data={data[:60]!r}")
     if with_parser and b"0001" not in data[:0] and \
             not _has_delim(data, want):
         st = ChunkedStream(data, cuts, end)
@@ -815,7 +863,10 @@ def run_caps(plan, ctx):
                                   extract_want_line_capabilities,
                                   format_ref_line)
     r = random.Random(derive_seed(plan["seed"], "caps"))
-    alpha = bytes(c for c in range(33, 127)) + b"\xc3\xa9"
+    # (contents without NUL and LF; a space separates capabilities)
+    alpha = bytes(c for c in range(1, 256) if c not in (0, 10, 32)) \
+        if plan["seed"] % 80 >= 40 else \
+        bytes(c for c in range(33, 127)) + b"\xc3\xa9"
 
     def word(maxlen=12):
         return bytes(r.choice(alpha) for _ in range(r.randint(1, maxlen)))
@@ -824,7 +875,8 @@ def run_caps(plan, ctx):
         caps = [c for c in caps if b" " not in c and b"\0" not in c]
         sha = bytes(r.choice(b"0123456789abcdef") for _ in range(40))
         ref = b"refs/heads/" + word().replace(b"\0", b"")
-        line = format_ref_line(ref, sha, caps if caps else None)
+        line = format_ref_line(ref, sha, caps if caps or r.random() < 0.5
+                               else None)
         ctx.case([line], True)
         text, got = extract_capabilities(line.rstrip(b"\n"))
         if caps:
